@@ -115,6 +115,13 @@ def check_loop(ctx, rep):
     ok = cfg.must_pass(header, p_node, [step_node]) and step_node.id not in cfg.reachable_after(p_node, avoid={header.id})
     rep.check('C15.L', 'MCMC.run::proposal-density-after-step', ok, W, facts,
               "the density used for the proposed state is not evaluated after operator.step() within the same iteration")
+    # … and it is the TARGET's density of the proposed state: every definition of that variable inside the loop is an evaluation of self.joint (a value the operator brings
+    # along is the density of whatever model the operator was given — for a block operator a sub-joint — and not of the state as the target sees it)
+    other_defs = [st for st in ast.walk(fn) if isinstance(st, ast.Assign) and any(isinstance(t, ast.Name) and t.id == P for t in st.targets) and in_loop(st)
+                  and not any(isinstance(c, ast.Call) and self_attr(c.func) == 'joint' for c in ast.walk(st.value))]
+    rep.check('C15.L', 'MCMC.run::proposal-density-is-the-targets-own', not other_defs, where(m, other_defs[0]) if other_defs else W, {'other_definitions': [norm_text(x)[:70] for x in other_defs]},
+              f"`{norm_text(other_defs[0])[:70] if other_defs else ''}` gives the proposed state a density that was not obtained by evaluating the target (self.joint): the acceptance "
+              f"ratio and the carried density then mix the target with whatever the operator evaluated (its own block, its own temperature)")
     # decision variable
     if_acc = None
     for n in ast.walk(main):
@@ -969,6 +976,11 @@ def run(ctx, rep):
     # every logged row is self-consistent: loggers (and the sampler) evaluate the model, they never read its cache
     from props import c11
     c11.check_cache_bypass(ctx, rep, rule='C15.R', only=lambda m: m.name in ('torchtree.core.logger', 'torchtree.inference.mcmc.mcmc', 'torchtree.inference.sampler'))
+    # the mass matrix the momentum is drawn from and the inverse the kinetic energies use stay in step: the adaptors write the metric through the notifying setter (C11.W on
+    # the hmc package), as the operators do with the parameters they move
+    from props import c11 as _c11q
+    from sa.report import RuleProxy as _RPq
+    _c11q.check_inplace(ctx, _RPq(rep, 'C15.Q', 'metric::'), rule='C11.W', only=lambda m_, fn_: m_.name.startswith('torchtree.inference.hmc'))
     rep.rule('C15.R', "logged densities are obtained by calling the model (never by reading the value cached by an earlier call)")
     rep.ok('C15.R', 'loggers::call-the-model', '', {'modules': 3})
     from sa.report import RuleProxy
